@@ -739,15 +739,53 @@ def merge_completeness(chk, F):
     h = F.hir_of(fn)
     fk = "rink_core::algorithms::btree_merge::btree_merge"
     ms = [m for m in hir_walk(h["body"]) if m.get("k") == "Match" and m.get("src") == "Normal" and m["scrut"].get("k") == "Tup"]
-    if len(ms) != 1:
-        raise AnchorLost("btree_merge: expected one match over a tuple of peeked items")
-    m = ms[0]
-    its = []
-    for e in m["scrut"]["elems"]:
-        names = [H.local_name(mc["recv"]) for mc in H.method_calls(e, "peek")]
-        its.append(names[0][0] if names and names[0] else None)
-    if None in its or len(its) != 2:
-        raise AnchorLost("btree_merge: scrutinee is not (a.peek().., b.peek()..)")
+    m = None
+    if len(ms) == 1:
+        m = ms[0]
+        its = []
+        for e in m["scrut"]["elems"]:
+            names = [H.local_name(mc["recv"]) for mc in H.method_calls(e, "peek")]
+            its.append(names[0][0] if names and names[0] else None)
+        if None in its or len(its) != 2:
+            raise AnchorLost("btree_merge: scrutinee is not (a.peek().., b.peek()..)")
+    else:
+        # the same four cases as an `if let` chain over the two peeked entries bound first:
+        #   let x = a.peek()..; let y = b.peek()..;
+        #   if let (Some(..), Some(..)) = (x, y) {..} else if let Some(..) = y {..} else if let Some(..) = x {..} else { break }
+        peeked = {}
+        for n in hir_walk(h["body"]):
+            if n.get("sk") == "let" and (n.get("pat") or {}).get("pk") == "bind" and n.get("init"):
+                pk = [H.local_name(mc["recv"]) for mc in H.method_calls(n["init"], "peek")]
+                if len(pk) == 1 and pk[0]:
+                    peeked[n["pat"]["name"]] = pk[0][0]
+        chain = [e for e in hir_walk(h["body"]) if e.get("k") == "If" and e["cond"].get("k") == "Let" and e["cond"]["init"].get("k") == "Tup"
+                 and len(e["cond"]["init"]["elems"]) == 2]
+        if len(chain) != 1 or len(peeked) != 2:
+            raise AnchorLost("btree_merge: expected one match (or one if-let chain) over a tuple of peeked items")
+        top = chain[0]
+        pair = [(H.local_name(x) or (None,))[0] for x in top["cond"]["init"]["elems"]]
+        if any(x not in peeked for x in pair):
+            raise AnchorLost("btree_merge: the pair tested is not made of the two peeked entries")
+        its = [peeked[pair[0]], peeked[pair[1]]]
+        wild = {"pk": "wild"}
+        arms_ = [{"pat": top["cond"]["pat"], "body": top["then"], "line": top["line"]}]
+        cur = top.get("else")
+        while cur is not None:
+            c_ = cur
+            while c_.get("k") == "Block" and not c_["stmts"] and c_.get("expr"):
+                c_ = c_["expr"]
+            if c_.get("k") == "If" and c_["cond"].get("k") == "Let":
+                who = (H.local_name(c_["cond"]["init"]) or (None,))[0]
+                if who not in pair:
+                    raise AnchorLost("btree_merge: an `else if let` of the chain tests something other than the two peeked entries")
+                subs = [wild, wild]
+                subs[pair.index(who)] = c_["cond"]["pat"]
+                arms_.append({"pat": {"pk": "tuple", "subs": subs}, "body": c_["then"], "line": c_["line"]})
+                cur = c_.get("else")
+            else:
+                arms_.append({"pat": {"pk": "tuple", "subs": [wild, wild]}, "body": c_, "line": c_.get("line", top["line"])})
+                cur = None
+        m = {"arms": arms_}
     n_arms = 0
 
     def side_of(e, sides):
